@@ -1,3 +1,236 @@
-(* C20 -- under construction *)
+(* C20 -- Keystore contents are exact, durable, and replaced atomically by reset.
+   Property theorems only; every proof is `exact <lemma>` (or a vm_compute
+   witness for a refutation).  Lemmas: Proofs/KeystoreProofs.v and
+   Proofs/ResetKeystoreProofs.v; models: Model/Keystore.v, Model/ResetKeystore.v.
+
+   [bits_of] maps a key identity to its Kademlia identifier; [kwf] says a key
+   carries the identifier of its identity; [pb] is prefixBits, [bs] batchSize.
+   [keys_ok ks] = the keys of ONE Put/Delete call are well formed and pairwise
+   distinct.  The distinctness is a real restriction: the code's in-call dedup
+   map is keyed by a pointer and never hits (see c20_put_duplicate_refuted). *)
 From Verif.Lib Require Import GoSem Bits.
-From Verif.Model Require Import Keystore.
+From Verif.Model Require Import Keystore ResetKeystore.
+From Verif.Proofs Require Import KeystoreProofs ResetKeystoreProofs.
+
+(* ======================= part 1: the plain keystore ======================= *)
+
+(* 1. Every history of Put / Delete / Empty (each possibly with one failing
+   datastore call), clean restarts and crashes at any journal position: the
+   datastore and the size counter stay consistent -- every journal prefix is a
+   well-formed store whose size key is absent or exact, the size key is absent
+   while the keystore runs, the counter equals the number of rows. *)
+Theorem c20_history_invariant :
+  forall (bits_of : N -> bits) (pb bs : nat) (ops : list kop),
+    Forall (kop_ok bits_of) ops -> Inv bits_of pb (krun pb bs ks_new ops).
+Proof. intros b pb bs ops H. exact (krun_inv b pb bs ops ks_new (ks_new_inv b pb) H). Qed.
+Print Assumptions c20_history_invariant.
+
+(* 2. Put returns exactly the keys not already stored and stores them. *)
+Theorem c20_put_returns_new :
+  forall bits_of pb s ks f, Inv bits_of pb s -> keys_ok bits_of ks -> (f = NoFault \/ f = FailSync) ->
+    exists s', ks_put pb s ks f = (s', Some (new_of s ks)) /\
+               stored s' = stored s ++ new_of s ks /\ Inv bits_of pb s'.
+Proof. exact put_spec. Qed.
+Print Assumptions c20_put_returns_new.
+
+(* 3. Get / CountKeysUpTo / ContainsPrefix reflect exactly the stored keys whose
+   identifier starts with the prefix (short and long prefixes alike). *)
+Theorem c20_get_exact :
+  forall bits_of pb s p, Inv bits_of pb s ->
+    ks_get pb s p = Some (map VKey (filter (under p) (stored s))).
+Proof. exact get_spec. Qed.
+Print Assumptions c20_get_exact.
+
+Theorem c20_count_exact :
+  forall bits_of pb s p limit, Inv bits_of pb s ->
+    ks_count pb s p limit =
+    Some (let m := Z.of_nat (length (filter (under p) (stored s))) in
+          if (0 <? limit)%Z then Z.min limit m else m).
+Proof. exact count_spec. Qed.
+Print Assumptions c20_count_exact.
+
+Theorem c20_contains_exact :
+  forall bits_of pb s p, Inv bits_of pb s ->
+    ks_contains pb s p = Some (existsb (under p) (stored s)).
+Proof. exact contains_spec. Qed.
+Print Assumptions c20_contains_exact.
+
+(* 4. Delete removes exactly the named keys, Empty everything. *)
+Theorem c20_delete_exact :
+  forall bits_of pb s ks f, Inv bits_of pb s -> keys_ok bits_of ks -> (f = NoFault \/ f = FailSync) ->
+    exists s', ks_delete pb s ks f = (s', true) /\
+      stored s' = filter (fun x => negb (has_mid (mid x) ks)) (stored s) /\ Inv bits_of pb s'.
+Proof. exact delete_spec. Qed.
+Print Assumptions c20_delete_exact.
+
+Theorem c20_empty_exact :
+  forall bits_of pb bs s f, Inv bits_of pb s -> (f = NoFault \/ f = FailSync \/ exists i, f = FailHas i) ->
+    exists s', ks_empty bs s f = (s', true) /\ stored s' = [] /\ Inv bits_of pb s'.
+Proof. exact empty_spec. Qed.
+Print Assumptions c20_empty_exact.
+
+(* 5. Size equals the number of stored keys, and no key is stored twice. *)
+Theorem c20_size_is_cardinality :
+  forall bits_of pb s, Inv bits_of pb s ->
+    k_size s = Z.of_nat (length (stored s)) /\ NoDup (map mid (stored s)).
+Proof. intros b pb s I. exact (conj (inv_size_card b pb s I) (inv_stored_nodup b pb s I)). Qed.
+Print Assumptions c20_size_is_cardinality.
+
+(* 6. After a crash at ANY position of the write stream the persisted size is
+   absent or exact, and the reopened keystore is consistent again. *)
+Theorem c20_size_after_crash :
+  forall bits_of pb s, Inv bits_of pb s ->
+    (forall n, size_ok (replay (firstn n (k_j s)))) /\
+    (forall back, Inv bits_of pb (ks_crash s back)).
+Proof.
+  intros b pb s I. exact (conj (fun n => proj2 (i_pre b pb s I n)) (fun back => crash_inv b pb s back I)).
+Qed.
+Print Assumptions c20_size_after_crash.
+
+(* 7. Durability: over a history without injected failures, a crash that loses
+   only writes not yet synced leaves the stored set unchanged. *)
+Theorem c20_crash_keeps_acknowledged :
+  forall bits_of pb bs ops back,
+    Forall (kop_ok bits_of) ops -> Forall kop_nofault ops ->
+    let s := krun pb bs ks_new ops in
+    back <= length (k_j s) - k_synced s -> stored (ks_crash s back) = stored s.
+Proof.
+  intros b pb bs ops back F1 F2 s B.
+  destruct (krun_inv_dur b pb bs ops ks_new (ks_new_inv b pb) ks_new_dur F1 F2) as [I D].
+  exact (crash_keeps b pb s back I D B).
+Qed.
+Print Assumptions c20_crash_keeps_acknowledged.
+
+(* 8. REFUTED without the distinctness hypothesis: one Put call naming the same
+   new key twice returns it twice and counts it twice (keystore.go:292,301: the
+   `seen` map is keyed by bit256.Key, a struct holding a pointer).  Replayed on
+   the real code by the harness: finding "seen-map-never-dedups". *)
+Definition c20_k (i : N) : mhk := {| mbits := kb 4 i; mid := i |}.
+Theorem c20_put_duplicate_refuted :
+  exists ks, let (s', r) := ks_put 0 ks_new ks NoFault in
+    r = Some [c20_k 5; c20_k 5] /\ k_size s' = 2%Z /\ stored s' = [c20_k 5].
+Proof. exists [c20_k 5; c20_k 5]. vm_compute. repeat split. Qed.
+Print Assumptions c20_put_duplicate_refuted.
+
+(* ===================== part 2: the resettable keystore ==================== *)
+(* [ev_ok]: Put keys well formed and distinct within a call, supplied keys well
+   formed, no repeated key inside one chunk written with altPutChecked (same
+   broken dedup map, see c20_reset_duplicate_size_refuted), and the marker
+   write does not fail (see c20_marker_write_fails_refuted). *)
+
+(* 9. Reset is atomic under every interleaving and at every crash point: for
+   every list of events of the worker and the ResetCids goroutine (concurrent
+   Puts in any phase, any batching, cancellation / failing altDs call (EAbort,
+   EAbortClean, EStartFail), Close at any moment, several resets in a row) and
+   every journal prefix a crash can leave, a reopened keystore holds the complete
+   old set or -- only once the swap of this reset has happened -- the complete
+   new set, each with every acknowledged concurrent Put and nothing but Puts
+   that were at least in flight; no key twice; reported size = number of keys. *)
+Theorem c20_reset_atomic :
+  forall bits_of pb evs s n,
+    Forall (ev_ok bits_of) evs -> rrun pb (ropen []) evs = Some s ->
+    r_synced s <= n <= length (r_j s) ->
+    let j' := firstn n (r_j s) in
+    NoDup (map mid (reopen_keys j')) /\
+    reopen_size j' = Z.of_nat (length (reopen_keys j')) /\
+    (holds (r_old s) s (reopen_keys j') \/ (r_flipped s = true /\ holds (r_new s) s (reopen_keys j'))).
+Proof. exact reset_atomic. Qed.
+Print Assumptions c20_reset_atomic.
+
+(* 10. Cancellation, a failed altDs call, or Close during the reset: no swap has
+   happened, so only the complete old set (with the acknowledged puts) can come back. *)
+Theorem c20_reset_cancel_close :
+  forall bits_of pb evs s n,
+    Forall (ev_ok bits_of) evs -> rrun pb (ropen []) evs = Some s ->
+    r_flipped s = false -> r_synced s <= n <= length (r_j s) ->
+    holds (r_old s) s (reopen_keys (firstn n (r_j s))).
+Proof. exact reset_not_flipped. Qed.
+Print Assumptions c20_reset_cancel_close.
+
+(* 11. The running keystore agrees with that: exact size, no duplicates, old or
+   new set with the concurrent puts. *)
+Theorem c20_reset_live_exact :
+  forall bits_of pb evs s,
+    Forall (ev_ok bits_of) evs -> rrun pb (ropen []) evs = Some s -> r_closed s = false ->
+    r_size s = Z.of_nat (length (keys_of (primary s))) /\ NoDup (map mid (keys_of (primary s))) /\
+    (holds (r_old s) s (keys_of (primary s)) \/ (r_flipped s = true /\ holds (r_new s) s (keys_of (primary s)))).
+Proof. exact live_exact. Qed.
+Print Assumptions c20_reset_live_exact.
+
+(* 12. Error injection, PARTIAL.  Theorems 9-11 already cover a failing
+   datastore call in opStart (EStartFail), in phases A-C (EAbort) and in the
+   final drain / altDs.Sync of opCleanup (EAbortClean).  Not modelled, hence not
+   proved (covered only by the Go-side oracle of the harness): a failing marker
+   Sync, a failing call inside the teardown, a failing call of a concurrent Put.
+   The remaining case, a failing marker WRITE, is false of the code: *)
+Definition c20_marker_fail_events : list revent :=
+  [EPutBegin [c20_k 1]; EPutCommit; EPutSync;
+   EStart [c20_k 2]; EStartDone; EKey; EAltWrite true [c20_k 2]; EAltSync; ECount;
+   ECleanup; ECleanSync; EFlipFail; EMarkSync; EDel [dkey 0 (c20_k 1)]; ETearSync].
+Theorem c20_marker_write_fails_refuted :
+  exists s, rrun 0 (ropen []) c20_marker_fail_events = Some s /\
+    r_old s = [c20_k 1] /\ r_new s = [c20_k 2] /\ r_synced s = length (r_j s) /\
+    reopen_keys (r_j s) = [] /\ reopen_size (r_j s) = 0%Z.
+Proof. eexists. split; [vm_compute; reflexivity|]. vm_compute. repeat split. Qed.
+Print Assumptions c20_marker_write_fails_refuted.
+
+(* 13. REFUTED without the "no repeated key in a checked chunk" hypothesis: the
+   same key put twice between phase B and the final drain is counted twice by
+   altPutChecked, so the size reported after the reset is one too large. *)
+Definition c20_dup_events : list revent :=
+  [EStart []; EStartDone; EAltSync; ECount;
+   EPutBegin [c20_k 3]; EPutCommit; EPutSync; EPutBegin [c20_k 3]; EPutCommit; EPutSync;
+   EAltWrite false [c20_k 3; c20_k 3]; ECleanup; ECleanSync; EFlip; EMarkSync; ETearSync; EFinish].
+Theorem c20_reset_duplicate_size_refuted :
+  exists s, rrun 0 (ropen []) c20_dup_events = Some s /\
+    keys_of (primary s) = [c20_k 3] /\ r_size s = 2%Z.
+Proof. eexists. split; [vm_compute; reflexivity|]. vm_compute. split; reflexivity. Qed.
+Print Assumptions c20_reset_duplicate_size_refuted.
+
+(* 14. REFUTED liveness: cancelling the caller's context while the worker runs
+   opStart makes ResetCids return without ever sending opCleanup; the worker then
+   blocks forever on the response channel: no event is enabled any more (every
+   later Put/Get/Size/ResetCids/Close hangs).  The stored data stay intact
+   (theorem 9 still applies to the wedged state). *)
+Theorem c20_cancel_during_start_wedges_refuted :
+  exists s, rrun 0 (ropen []) [EStart [c20_k 2]; EStartCancel; EStartDone] = Some s /\
+    r_ph s = PWedged /\ r_rip s = true /\
+    forall e, match e with ECloseSync | EPutBegin _ | EStart _ | EClose | EPutCommit | EPutSync => rstep 0 s e = None | _ => True end.
+Proof.
+  eexists. split; [vm_compute; reflexivity|]. split; [reflexivity|]. split; [reflexivity|].
+  intros [ks| | | | |nw|c| | | | |b c| | | | | | | | | | |]; try exact I; reflexivity.
+Qed.
+Print Assumptions c20_cancel_during_start_wedges_refuted.
+
+(* Non-vacuity: concrete histories meeting the hypotheses. *)
+Definition c20_bits (i : N) : bits := kb 4 i.
+Example c20_nonvacuous :
+  (* part 1: a history with a fault, a restart and a crash *)
+  (let ops := [KPut [c20_k 9; c20_k 3] NoFault; KPut [c20_k 12] (FailHas 0); KRestart;
+               KDel [c20_k 3] NoFault; KCrash 1; KPut [c20_k 3; c20_k 4] FailSync] in
+   Forall (kop_ok c20_bits) ops /\
+   map mid (stored (krun 0 2 ks_new ops)) = [9%N; 3%N; 4%N] /\ k_size (krun 0 2 ks_new ops) = 3%Z) /\
+  (* part 2: a reset with a concurrent Put in phase A and one after phase B, then Close *)
+  (let evs := [EPutBegin [c20_k 1]; EPutCommit; EPutSync;
+               EStart [c20_k 2; c20_k 5]; EStartDone; EKey;
+               EPutBegin [c20_k 6]; EPutCommit; EPutSync;
+               EAltWrite false [c20_k 6]; EKey; EAltWrite true [c20_k 2; c20_k 5]; EAltSync; ECount;
+               EPutBegin [c20_k 7; c20_k 2]; EPutCommit; EPutSync;
+               EAltWrite false [c20_k 7; c20_k 2]; ECleanup; ECleanSync; EFlip; EMarkSync;
+               EDel [dkey 0 (c20_k 1); dkey 0 (c20_k 6)]; EDel [dkey 0 (c20_k 7); dkey 0 (c20_k 2)];
+               ETearSync; EFinish; EClose; ECloseSync] in
+   Forall (ev_ok c20_bits) evs /\
+   exists s, rrun 0 (ropen []) evs = Some s /\
+     map mid (reopen_keys (r_j s)) = [6%N; 2%N; 5%N; 7%N] /\ reopen_size (r_j s) = 4%Z).
+Proof.
+  split.
+  - split; [|vm_compute; split; reflexivity].
+    repeat (apply Forall_cons || apply Forall_nil); simpl; try exact I;
+      (split; [repeat constructor; simpl; intuition discriminate|intros k H; simpl in H; intuition subst; reflexivity]).
+  - split.
+    + repeat (apply Forall_cons || apply Forall_nil); simpl; try exact I;
+        try (split; [repeat constructor; simpl; intuition discriminate|intros k H; simpl in H; intuition subst; reflexivity]);
+        try (intros k H; simpl in H; intuition subst; reflexivity);
+        try (repeat constructor; simpl; intuition discriminate).
+    + eexists. split; [vm_compute; reflexivity|]. vm_compute. split; reflexivity.
+Qed.
